@@ -119,6 +119,11 @@ def mt_run(seed, prop, i, fault_free, collectors=("copy", "sweep", "swiper"), co
     snap = tb.stream(seed, prop, i, "snapshot")
     if gc == "swiper" and snap.random() < 0.35:
         script = mm.add_snapshots(script, snap)
+    if gc == "swiper" and mm.OPS["SHSTORE"] in [op for th in mm.parse(script)[3] for ph in th for (op, _, _, _) in ph]:
+        # several threads store into one shared old object: make the header-word operations of
+        # the write barrier's slow path scheduling points often enough for them to interleave
+        sim["hot"] = snap.choice([3000, 20000, 65536])
+        sim["hotsweep"] = max(sim.get("hotsweep", 0), sim["hot"])
     return {"index": i, "exe": ["mtheap", gc, cg, "sim"], "argv": script, "dora_flags": " ".join(flags), "sim": sim,
             "expect": {"rc": 0, "stdout": out, "stderr_empty": True}, "timeout": 300, "fault_free": fault_free,
             "tags": {"gc": gc, "codegen": cg, "profile": "multithreaded", "threads": t, "workers": workers, "policy": sim["policy"].split(":")[0], "fault_free": fault_free,
@@ -783,6 +788,14 @@ def c09(tier):
 
 def c12_tier_b_run(seed, prop, i, fault_free):
     """Real parallel marking / evacuation with 1, 2, 4, 8 workers over generated object graphs."""
+    if i % 4 == 3:
+        # several mutator threads: their write barriers fill the remembered set concurrently,
+        # the parallel phases then have to process every entry exactly once
+        r = mt_run(seed, prop, i, fault_free, collectors=("swiper",))
+        if not fault_free:
+            r["sim"]["pminor"] = max(r["sim"]["pminor"], 300)
+            r["sim"]["hot"] = max(r["sim"]["hot"], 3000)
+        return r
     r = hg_run(seed, prop, i, fault_free, collectors=("swiper",), profile=tb.stream(seed, prop, i, "profile").choice(["links", "arrays", "deep", "interior", "mixed", "wide", "wide", "wide"]), max_ops=120)
     cfg = tb.stream(seed, prop, i, "workers")
     workers = cfg.choice([1, 2, 2, 4, 8, 8])
@@ -810,8 +823,8 @@ def c12(tier):
               "worker loop: transliteration of MarkingTask::run / CopyTask::trace_gray_objects (pop, process, publish + wake_up, try_terminate)"],
         assumptions=["sequentially consistent interleavings only", "parking_lot condvars have no spurious wake-ups", "callers publish before they poll"])
     b = run_tier_b_property(
-        "C12", tier, quick_s=45, thorough_s=900, drivers=["heapgraph"], collectors=["swiper"], codegens=["cannon", "boots"],
-        make_run=c12_tier_b_run, shrink=hg_shrink, expect_fn=hg_expect, write=False, key_fn=heap_key,
+        "C12", tier, quick_s=45, thorough_s=900, drivers=["heapgraph", "mtheap"], collectors=["swiper"], codegens=["cannon", "boots"],
+        make_run=c12_tier_b_run, shrink=_ShrinkByDriver({"heapgraph": hg_shrink, "mtheap": mt_shrink}), expect_fn=hg_expect, write=False, key_fn=heap_key,
         level_text="real parallel marking (marking.rs) and parallel evacuation (minor.rs) with 1/2/4/8 workers as simulator tasks, real work stealing and termination detection, over generated object graphs; oracle = reference model + gc-verify + deadlock detection")
     return combine("C12", tier, [a, b], t0, ASSUME_B)
 
